@@ -154,7 +154,7 @@ def run(chk):
         if observable(a) != observable(base[pi]) and bad is None:
             bad = (src, sc, base[pi], a, kind)
     # destructor programs under every schedule against the reference-counting + collector model, which
-    # Props/C11.schedule_unobservable_with_destructors proves schedule-independent: body lines in order, the deaths at the end of main as a multiset
+    # Props/C11.schedule_unobservable_with_destructors proves schedule-independent: body lines in order, then the deaths at the end of main in reverse order of declaration
     life_model = dict(zip(life_ops, driver(["life " + life_ops[pi] for pi in life_ops])[0])) if life_ops else {}
     life_sched = driver(["lifegc %s %s" % (life_ops[pi], sc) for (pi, sc) in meta if pi in life_ops])[0] if life_ops else []
     li = 0
@@ -170,8 +170,8 @@ def run(chk):
         got = evallib.split_result(a).get("echo_lines") if a.startswith("ok ") else [a[:80]]
         body, _, fin = m[len("trace "):].partition(" ## ")
         wb = body.split("|") if body else []
-        wf = sorted(fin.split("|")) if fin else []
-        if not (got[:len(wb)] == wb and sorted(got[len(wb):]) == wf) and life_bad is None:
+        wf = fin.split("|") if fin else []
+        if not (got[:len(wb)] == wb and got[len(wb):] == wf) and life_bad is None:
             life_bad = (progs[pi][0], sc, got, wb, wf, life_ops[pi])
     kinds["heap+dtor vs refcount+collector model"] = len(life_ops)
     chk.extra["input_distribution"] = kinds
